@@ -263,10 +263,15 @@ class KeplerNum(NumericalPropagator):
 
         ephem = Ephem(ephem)
 
+        # The last integration point may lie beyond the requested stop
+        last = stop if dates is None and start <= stop else None
+
         if kwargs.get("real_steps", False):
-            ephem_iter = ephem.iter(dates=dates, listeners=listeners)
+            ephem_iter = ephem.iter(dates=dates, stop=last, listeners=listeners)
         else:
-            ephem_iter = ephem.iter(dates=dates, step=step, listeners=listeners)
+            ephem_iter = ephem.iter(
+                dates=dates, stop=last, step=step, listeners=listeners
+            )
 
         for orb in ephem_iter:
             yield orb.as_orbit(self.copy())
